@@ -460,15 +460,35 @@ def run_property(prop, tier, facts_by_config, specimen_by_config, seed=0):
                 lines.append("  detail: %s" % json.dumps(v["detail"])[:600])
             lines.append("  why necessary: %s" % r.ob.nec)
             exit_code = 1
-    if exit_code == 0:
-        for r in results:
-            if r.inconclusive:
-                lines.append("INCONCLUSIVE property=%s obligation=%s config=%s %s" % (prop, r.ob.id, r.config, r.inconclusive))
+    # An obligation that could not be decided on this source (an anchor is gone, a value has a form the rule
+    # cannot classify, a site count fell below its floor) is reported fail-closed as a violation OF THE
+    # OBLIGATION: the necessary condition could not be established.  The replay file says so explicitly
+    # ("unestablished").  Only when nothing could be analysed at all (no facts: the tree does not build in
+    # that configuration) the check ends with exit 3 and no VIOLATION line.
+    for r in results:
+        if not r.inconclusive:
+            continue
+        lines.append("INCONCLUSIVE property=%s obligation=%s config=%s %s" % (prop, r.ob.id, r.config, r.inconclusive))
+        if r.inconclusive.startswith("facts for configuration"):
+            if exit_code == 0:
                 exit_code = 3
-    else:
-        for r in results:
-            if r.inconclusive:
-                lines.append("INCONCLUSIVE property=%s obligation=%s config=%s %s" % (prop, r.ob.id, r.config, r.inconclusive))
+            continue
+        if r.violations:
+            continue  # already reported through a positive contradiction
+        os.makedirs(replay_dir, exist_ok=True)
+        rp = os.path.join(replay_dir, re.sub(r"[^A-Za-z0-9_.-]", "_", r.ob.id + "-" + r.config) + ".json")
+        with open(rp, "w") as f:
+            json.dump(
+                {"property": prop, "obligation": r.ob.id, "config": r.config, "nec": r.ob.nec, "doc": r.ob.doc,
+                 "violation": {"kind": "unestablished", "what": "the necessary condition could not be established on this source", "reason": r.inconclusive,
+                               "passed_instances": sum(1 for c in r.checks if c["ok"])}},
+                f,
+                indent=1,
+            )
+        lines.append("VIOLATION property=%s replay=%s" % (prop, rp))
+        lines.append("  obligation %s [%s]: NOT ESTABLISHED - %s" % (r.ob.id, r.config, r.inconclusive[:400]))
+        lines.append("  why necessary: %s" % r.ob.nec)
+        exit_code = 1
     # evidence
     nobl = len(results)
     discharged = sum(1 for r in results if r.status() == "PASS")
